@@ -202,8 +202,27 @@ def dump_graph(module, cfg, scratch, *, timeout=3600, tag=None, workers=None, en
     return nodes, edges, inits, res
 
 
-_node_re = re.compile(r'^(-?\d+) \[label="(.*)"(,style = filled)?\];?\s*$')
+_node_re = re.compile(r'^(-?\d+) \[label="')
 _edge_re = re.compile(r'^(-?\d+) -> (-?\d+)')
+
+
+def _read_dot_string(line, pos):
+    """Read a dot string literal starting after the opening quote; returns (text, index after closing quote)."""
+    out = []
+    i = pos
+    n = len(line)
+    while i < n:
+        ch = line[i]
+        if ch == '\\' and i + 1 < n:
+            nx = line[i + 1]
+            out.append('\n' if nx == 'n' else nx)
+            i += 2
+            continue
+        if ch == '"':
+            return ''.join(out), i + 1
+        out.append(ch)
+        i += 1
+    raise ValueError('unterminated dot string')
 
 
 def parse_dot(path):
@@ -217,8 +236,8 @@ def parse_dot(path):
                 continue
             m = _node_re.match(line)
             if m:
-                label = m.group(2).replace('\\n', '\n').replace('\\"', '"').replace('\\\\', '\\')
+                label, end = _read_dot_string(line, m.end())
                 nodes[m.group(1)] = tlaval.parse_state(label)
-                if m.group(3):
+                if 'style = filled' in line[end:end + 20]:
                     inits.append(m.group(1))
     return nodes, edges, inits
